@@ -216,7 +216,7 @@ def fam_path_history(R, k, first_ops, prequery, with_T=False):
            'Line.length / Line.point -> uninterpreted functions of (start, end[, t])')
     alphabet = ops_alphabet()
     nhist = 0
-    WITH_D[0] = (k == 1)
+    WITH_D[0] = (k == 1 and not with_T)
     for first in first_ops:
         for rest in itertools.product(alphabet, repeat=k - 1):
             hist = [first] + list(rest)
